@@ -32,6 +32,7 @@ Blocks1(z) ==
     \cup { NDef(h, b, st) : b \in Body1, h \in {0, 255}, st \in {"brace", "end", "dval", "xval"} }
     \cup { NBody("macro", b) : b \in Body1 \ {<<>>, <<CMT>>} }
     \cup { NBody("ct", b) : b \in Body1 \ {<<>>, <<CMT>>} }
+    \cup { NMacroP(7, vs) : vs \in {<<VD(5)>>, <<VD(5), VX(<<1, 2>>)>>, <<VX(<<1>>), VX(<<2>>), VX(<<3>>)>>, <<VD(5), VD(5)>>} }
     \cup { NBody("ctx", <<P5>>), NBody("ctx", <<P5, P5, NB1(14, 2, "d")>>), NBody("ctx", <<CMT>>) }
     \cup { NVset(<<107>>, 2), NVvals(<<107, 50>>, <<VD(5), VX(<<1, 2>>)>>), NVar("vload", <<107>>),
            NVar("vsize", <<107>>) }
@@ -80,6 +81,9 @@ Strings(z) ==
       [] Family = "disasm4" -> { <<a, b, x, d>> : a \in {3, 4, 9, 10, 17, 41, 43, 44, 61, 69}, b \in {0, 1, 2, 127, 128, 255}, x \in {0, 1, 2, 255}, d \in {0, 1, 43, 255} }
                                \cup { <<a, 0, 2, 43, 0>> \o t : a \in {43, 69}, t \in {<<>>, <<0>>, <<0, 0>>, <<0, 1, 1>>} }
                                \cup { <<4, 128, 1>>, <<4, 255, 253>>, <<4, 255, 255>> }
+                               \cup { <<a>> \o U16B(Len(x)) \o x \o U16B(Len(y)) \o y \o t :
+                                        a \in {44, 61}, x \in {<<>>, <<1>>, <<43, 0, 0>>, <<44, 0, 0, 0, 0>>}, y \in {<<>>, <<1>>, <<44, 0, 1, 1, 0, 0>>}, t \in {<<>>, <<1>>} }
+                               \cup { <<41, h>> \o U16B(Len(x)) \o x : h \in {0, 255}, x \in {<<>>, <<1>>, <<44, 0, 0, 0, 0>>, <<61, 0, 1, 1, 0, 0>>} }
 
 TraceLog == JsonDeserialize(IOEnv.TRACE_FILE)
 
